@@ -36,17 +36,24 @@ func makeDgram(r *Rand, class string, oc OpCase, id uint32) []byte {
 	case "id-0x19":
 		base[0] = 0x19
 	case "malformed-field":
-		// a byte that is a bool or BCD position in most replies; falls back to a random payload byte
+		// one field with a domain (bool, BCD date / time / HH:mm), chosen at random, replaced by a pattern outside it -
+		// incl. the uninitialised-clock date prefix 20 00 00 00 followed by non-decimal nibbles; falls back to a payload byte
 		fs := replyFields(oc.Resp)
-		done := false
+		cands := []fieldPos{}
 		for _, f := range fs {
-			if f.Off >= 8 && (f.Text == "bool" || f.Text == "types.DateTime" || f.Text == "types.Date" || f.Text == "types.SystemTime") {
-				base[f.Off] = 0xfa
-				done = true
-				break
+			if f.Off >= 8 && (f.Text == "bool" || strings.Contains(f.Text, "Date") || strings.Contains(f.Text, "Time") || strings.Contains(f.Text, "HHmm")) {
+				cands = append(cands, f)
 			}
 		}
-		if !done {
+		if len(cands) > 0 {
+			f := cands[r.Intn(len(cands))]
+			ps := badPatterns(f.Text, f.Width)
+			if strings.Contains(f.Text, "DateTime") {
+				ps = append(ps, []byte{0x20, 0, 0, 0, 0x0a, 0xbc, 0xde}, []byte{0x20, 0, 0, 0, 0x12, 0x3f, 0x00}, []byte{0x20, 0x24, 0x01, 0x01, 0x12, 0x00, 0xa0})
+			}
+			ps = append(ps, append([]byte{0xfa}, make([]byte, f.Width-1)...))
+			copy(base[f.Off:], ps[r.Intn(len(ps))])
+		} else {
 			base[8+r.Intn(56)] ^= 0xff
 		}
 	}
